@@ -27,7 +27,7 @@ from common import bytes_lit, zlit
 ID = 'C06'
 TECHNIQUE = ('Coq proof over all prior states, batches and crash points of an executable model of the storing code + '
              'correspondence check of the recorded raw file-system operations of the real code against the model')
-LEVEL_TEXT = ('Theorems over Crash.v (43 in P_C06.v; also: seed progress file and legend cache as instances of write_atomic, batches spanning several bundle files, and complete store calls on a cache directory = initialisation + in-place phase in one theorem): for every directory state, request and crash state (every prefix of the '
+LEVEL_TEXT = ('Theorems over Crash.v (51 in P_C06.v; also: CompactCacheBase.store_tiles with its routing decision (one bundle call / one call per tile) for every batch, v1 and v2; also: seed progress file and legend cache as instances of write_atomic, batches spanning several bundle files, and complete store calls on a cache directory = initialisation + in-place phase in one theorem): for every directory state, request and crash state (every prefix of the '
               'operation list and every byte-granular tear of a temp-file write) of write_atomic / FileCache._store / '
               '_store_single_color_tile (repaired) the stored address reads old, complete new, or missing only if it was missing or a symlink replaced by _store, and '
               'addresses the operations do not name are unchanged; for v1/v2 bundles: every raw write sequence that satisfies the '
@@ -41,7 +41,9 @@ LEVEL_NOTE = ('Trusted: Coq kernel, hand-written Crash.v, fstrace interposition 
               'cannot be torn for any B divisible by 8; proved limits: byte tear of a v2 entry and page tear of v1 slot 1635 '
               'expose a bad read).  CPython buffered I/O flush order is observed, not modelled: the bundle theorems quantify over '
               'every raw sequence with raw_ok, and raw_ok is evaluated in Coq on each recorded sequence.  Batches that span '
-              'several bundle files are covered by the oracle only.  Repaired finding (regression in corpus/C06): regular tile replaced by a single colour link.')
+              'several bundle files: theorems over the interleaved sequence (per-file projections checked against the trace; the '
+              'routing decision of CompactCacheBase.store_tiles is compared with c_single_bundle on every batch); their '
+              'interleaved crash states are read by the oracle.  Repaired finding (regression in corpus/C06): regular tile replaced by a single colour link.')
 DESIGN_REF = 'DESIGN.md section 5, C06'
 RULE = ('case = one store (pre-state directory, request/batch, recorded raw ops, reads in every crash state); '
         'non-trivial = pre-state has content for some address or the store replaces a link / a record; distinct by '
@@ -922,6 +924,11 @@ Definition dir_check (c : ''' + DIR_CASE_TYPE + ''') : bool :=
   list_eqb shape_eqb (map bop_shape ops) shapes.
 '''
 
+ROUTE_CASE_TYPE = 'list Z * list Z'
+ROUTE_CHECKER = (
+    "fun c => let '(bs, calls) := c in let tiles : list mtile := map (fun b => (b, 0, [])) bs in "
+    "list_eqb Z.eqb (if c_single_bundle tiles then [c_last_bundle tiles] else map c_bundle_of tiles) calls")
+
 INIT_CASE_TYPE = 'Z * Z * Z * Z * list (Z * Z)'
 INIT_CHECKER = (
     "fun c => let '(which, bc, br, len, samples) := c in "
@@ -1000,10 +1007,33 @@ def scen_compact(ctx, version, nsteps, out, big=False, perms=False):
             old = read_compact(version, cdir, coords)
             tiles = [Tile(c, ImageSource(io.BytesIO(d))) for c, d in batch]
             env.rnd.used = []
-            if len(tiles) == 1 and rng.random() < 0.5:
-                raw, exc = env.traced(lambda: cache.store_tile(tiles[0]))
-            else:
-                raw, exc = env.traced(lambda: cache.store_tiles(tiles))
+            # routing of CompactCacheBase.store_tiles, observed independently of the file contents: every bundle-level
+            # store_tiles call takes the lock of its bundle once (one call for a batch inside one bundle file, one call per
+            # tile otherwise); compared in Coq with the model's decision c_single_bundle
+            import mapproxy.cache.compact as _cc
+            lock_calls = []
+            _orig_lock = _cc.FileLock
+
+            class CountingLock(_orig_lock):
+                def __init__(self, lock_file, *a, **kw):
+                    lock_calls.append(lock_file)
+                    _orig_lock.__init__(self, lock_file, *a, **kw)
+            _cc.FileLock = CountingLock
+            try:
+                if len(tiles) == 1 and rng.random() < 0.5:
+                    raw, exc = env.traced(lambda: cache.store_tile(tiles[0]))
+                else:
+                    raw, exc = env.traced(lambda: cache.store_tiles(tiles))
+            finally:
+                _cc.FileLock = _orig_lock
+            if exc is None:
+                bid = lambda fn: 1 if f_bname in fn else (0 if bname in fn else 2)      # noqa: E731
+                out['route_terms'].append('([%s], [%s])' % ('; '.join('1' if c == foreign else '0' for c, _ in batch),
+                                                            '; '.join(str(bid(fn)) for fn in lock_calls)))
+                out['route_descr'].append({'writer': 'CompactCacheV%d.store_tiles' % version,
+                                           'batch_coords': [list(c) for c, _ in batch],
+                                           'bundle_level_calls(lock files)': [os.path.relpath(fn, cdir) for fn in lock_calls]})
+                ctx.count('%s:route=%s' % (tag, 'one-bundle-call' if len(lock_calls) == 1 and len(batch) > 1 else 'per-tile'))
             raw = [o for o in raw if not (o[0] in ('create', 'write', 'unlink') and o[1].endswith('.lck'))]
             new = read_compact(version, cdir, coords)
             rep = {'writer': 'CompactCacheV%d' % version, 'bundle': bname,
@@ -1285,7 +1315,8 @@ def corpus_regular_then_link(ctx, w):
 
 def run(ctx):
     out = {k: [] for k in ('file_terms', 'file_descr', 'atomic_terms', 'atomic_descr', 'v1_terms', 'v1_descr',
-                           'v2_terms', 'v2_descr', 'init_terms', 'init_descr', 'dir_terms', 'dir_descr')}
+                           'v2_terms', 'v2_descr', 'init_terms', 'init_descr', 'dir_terms', 'dir_descr',
+                           'route_terms', 'route_descr')}
     import time
     t0 = time.time()
     marks = []
@@ -1334,6 +1365,8 @@ def run(ctx):
                    lambda i: out['init_descr'][i], shard=8)
     ctx.corr_check('bundle_dir_init', 'Bytes Crash', DIR_CASE_TYPE, out['dir_terms'], 'dir_check',
                    lambda i: out['dir_descr'][i], shard=40, defs=DIR_DEFS)
+    ctx.corr_check('compact_routing', 'Bytes Crash', ROUTE_CASE_TYPE, out['route_terms'], ROUTE_CHECKER,
+                   lambda i: out['route_descr'][i], shard=400)
     mark('coq-file-atomic-init')
     ctx.corr_check('bundle_v2', 'Bytes Crash', V2_CASE_TYPE, out['v2_terms'], 'v2_check',
                    lambda i: out['v2_descr'][i], shard=2, defs=V2_DEFS)
